@@ -11,9 +11,18 @@ func init() {
 // schema: a in {a0,a1}, b in {b0,b1,b2}, r in {r0}; r=r0 selects an arbitrary row set.
 // Values are added to the writer in non-sorted order so that a missing sort is visible
 // even in the engine's deterministic (insertion-order) map iteration.
-func verifC02Data(name string) *verifData {
+func verifC02Data(name string) *verifData { return verifC02DataV(name, false) }
+
+func verifC02DataV(name string, specialValues bool) *verifData {
 	// group-by never looks at the row count: 64 rows, every row set arbitrary
-	d := verifNewDataN(name, []string{"a", "b", "r"}, [][]string{{"a1", "a0"}, {"b1", "b2", "b0"}, {"r0"}}, 64)
+	// the values of the first column: plain ones, or a value and its extension by a control
+	// byte / a high byte (orderings that compare joined or escaped keys instead of the values
+	// themselves get these wrong)
+	avals := []string{"a1", "a0"}
+	if specialValues {
+		avals = [][]string{{"a1", "a0"}, {"a\t", "a"}, {"a", "a\xff"}}[verifChoice("a-values", 3)]
+	}
+	d := verifNewDataN(name, []string{"a", "b", "r"}, [][]string{avals, {"b1", "b2", "b0"}, {"r0"}}, 64)
 	d.build()
 	return d
 }
@@ -105,12 +114,13 @@ func verifGenList(maxLen int) (list []string, unknown bool) {
 }
 
 func HarnessC02GroupBy() {
-	d := verifC02Data("c02.updog")
 	maxLen := 4
 	if verifTier() > 0 {
 		maxLen = 5
 	}
 	list, unknown := verifGenList(maxLen)
+	// value sets with prefix pairs for the lists of two columns (thorough: two or three)
+	d := verifC02DataV("c02.updog", !unknown && len(list) >= 2 && len(list) <= 2+verifTier())
 	rows, _ := d.set("r", "r0")
 	var cache Cache
 	if len(list) <= 1 && verifBool("cache") {
@@ -198,7 +208,13 @@ func HarnessC08Reuse() {
 	// some group-by columns were already resolved
 	d3 := &verifData{path: verifTempPath("c08c.updog"), n: 2, cols: []string{"a"}, vals: [][]string{{"a5"}}, sets: [][]uint64{{0x3}}}
 	d3.build()
-	idx1 := d1.open(verifBool("preload"), nil)
+	// the first index may have a cache that keeps everything: a reused (and later changed)
+	// Query must not be answered from entries made for its former self
+	var cache1 Cache
+	if verifBool("cache") {
+		cache1 = NewLRUCache(^uint64(0))
+	}
+	idx1 := d1.open(verifBool("preload"), cache1)
 	idx2 := d2.open(false, nil)
 	idx3 := d3.open(false, nil)
 	r1 := rowsOf(d1)
@@ -246,6 +262,35 @@ func HarnessC08Reuse() {
 		}
 		verifAssert(x.Column == "r" && x.Value == "r0" && y.Column == "a" && y.Value == "a0", "C08: Execute changed a comparison of the query's expression")
 		verifAssert(q.Expr.String() == givenText, "C08: Execute changed the query's expression (textual form differs)")
+	}
+	// the caller changes a comparison of the same Query value and executes it again: the
+	// result is that of a freshly constructed query equal to the changed one
+	y.Value = "a1"
+	if shape == 0 {
+		x.Column, x.Value = "a", "a1"
+	}
+	changed := func(d *verifData) uint64 {
+		rx, _ := d.set("r", "r0")
+		ry, _ := d.set("a", "a1")
+		switch shape {
+		case 1:
+			return rx | ry
+		case 2:
+			return rx & ry
+		}
+		return ry
+	}
+	for _, which := range []int{1, 2, 1} {
+		idx, d := idx1, d1
+		if which == 2 {
+			idx, d = idx2, d2
+		}
+		res, err := idx.Execute(q)
+		verifAssert(err == nil, "C08: executing a changed Query value returned an error")
+		if err != nil {
+			return
+		}
+		verifCheckGroups(d, given, changed(d), res, "C08: a Query value changed by the caller and executed again differs from a fresh equal query")
 	}
 	idx1.Close()
 	idx2.Close()
